@@ -517,20 +517,26 @@ def mig_phi(A, B, roots):
 
 
 def mig_roots(A, B):
-    """(roots, unmatched): every top-level TL2-origin instance of the migrated dump B paired with the original instance of
-    the same TL name (closed, or generic in nat parameters only)"""
+    """(roots, unmatched): every top-level TL2-origin instance of the migrated dump B paired with EVERY original instance of
+    the same TL name whose arguments are nat arguments only (`*` = a nat parameter, a number = an instantiated constant):
+    the migration drops those arguments, so all of them become the one migrated type"""
     import re
     by = {}
     for x in A:
         if x["kind"] in ("struct", "union") and x.get("tlName") and not x.get("originTL2"):
-            if x["name"] == x["tlName"] or re.fullmatch(re.escape(x["tlName"]) + r"<\*(,\*)*>", x["name"]):
-                by.setdefault((x["kind"], x["tlName"]), x["id"])
+            if x["name"] == x["tlName"] or re.fullmatch(re.escape(x["tlName"]) + r"<(\*|\d+)(,(\*|\d+))*>", x["name"]):
+                by.setdefault((x["kind"], x["tlName"]), []).append(x["id"])
     roots, unmatched = [], []
     for y in B:
         if y.get("topLevel") and y.get("originTL2") and y["kind"] in ("struct", "union") and y["name"] == y.get("tlName"):
-            a = by.get((y["kind"], y["tlName"]))
-            if a is None:
+            l = by.get((y["kind"], y["tlName"]))
+            if not l:
                 unmatched.append(y["name"])
             else:
-                roots.append((a, y["id"]))
+                roots += [(a, y["id"]) for a in l]
     return roots, unmatched
+
+
+def mig_closure(A, B, root):
+    """pairs reachable from one root"""
+    return mig_phi(A, B, [root])
